@@ -187,6 +187,10 @@ def gen_case(rng, thorough, idx):
         and not nobj2 else 'direct'
     cache_size = rng.choice([400, 400, 1, 2, 5])
     pool = rng.choice([16, 16, 16, 16, 16, 16, 16, 1, 2])
+    # persistent CLASSES (ZODB.persistentclass) among the test objects: never ghosts, they re-read their
+    # state immediately when invalidated (oracle only)
+    pclass = sorted(rng.sample([i for i in range(nobj) if i not in blobs], 1)) \
+        if rng.random() < 0.12 and len(blobs) < nobj else []
     if pack:
         progs['pk'] = [['pack']] * rng.choice([1, 1, 2])
     if kind == 'file' and not nobj2 and rng.random() < 0.08:
@@ -197,7 +201,7 @@ def gen_case(rng, thorough, idx):
                 stick=rng.choice([0.0, 0.3, 0.6, 0.8, 0.9]), pool=pool, ctor=ctor, cache_size=cache_size,
                 layout=rng.choice(['bushy', 'lawn']),
                 explicit=rng.random() < 0.2, garbage=rng.choice([0, 1, 2]),
-                clock_step=clock_step, blobs=blobs, nobj2=nobj2,
+                clock_step=clock_step, blobs=blobs, nobj2=nobj2, pclass=pclass,
                 pct=[rng.choice([1, 2, 3]), rng.choice([100, 300, 800])] if rng.random() < 0.35 else None)
 
 
@@ -899,7 +903,7 @@ def run_case(case, tmp, with_trace=False, schedule=None):
         # history and whose pool never discards a connection
         has_do = any(op[0] == 'do' for ops in case['progs'].values() for op in ops)
         with_trace = with_trace and not nobj2 and kind not in ('mvccmap', 'demobase') and ctor != 'db-config' \
-            and pool >= 2 * nthreads + 2 and not has_do
+            and pool >= 2 * nthreads + 2 and not has_do and not case.get('pclass')
         hooks = []
         if with_trace:
             import c02_trace
@@ -916,6 +920,9 @@ def run_case(case, tmp, with_trace=False, schedule=None):
         box = dict(st=st)
 
         def new_object(i):
+            if i in case.get('pclass', ()):
+                from ZODB.persistentclass import PersistentMetaClass
+                return PersistentMetaClass('PC%d' % i, (object,), {'value': 0, '__module__': '__zodb__'})
             return Blob(b'0') if i in case.get('blobs', ()) else MinPO(0)
 
         def setup():
@@ -979,7 +986,8 @@ def run_case(case, tmp, with_trace=False, schedule=None):
             if kind != 'demobase':
                 for i in range(case['nobj']):
                     o = new_object(i)
-                    c.add(o)
+                    if i not in case.get('pclass', ()):
+                        c.add(o)                    # (a persistent class is added by reachability only)
                     root['k%d' % i] = o
                     if run.tracer:
                         run.tracer.write('setup', c, u64(o._p_oid), 0)
@@ -1165,6 +1173,7 @@ def canonical(case):
                 stick=case['stick'], explicit=case['explicit'], clock_step=case.get('clock_step', 1.0),
                 pct=case.get('pct'), blobs=case.get('blobs', []), nobj2=case.get('nobj2', 0),
                 ctor=case.get('ctor'), cache_size=case.get('cache_size'), pool=case.get('pool'),
+                pclass=case.get('pclass', []),
                 layout=case.get('layout'))
 
 
@@ -1188,6 +1197,8 @@ def run_batch(args):
         count('kind:' + case['kind'])
         if case.get('blobs'):
             count('with-blobs')
+        if case.get('pclass'):
+            count('with-persistent-class')
         if case.get('nobj2'):
             count('with-second-database')
         count('strategy:' + ('pct%d' % case['pct'][0] if case.get('pct') else 'random'))
@@ -1328,8 +1339,8 @@ def main(argv=None):
                            'commit-lock order',
                            'ORACLE ONLY (no model trace): the native MVCCMappingStorage, DemoStorage over a '
                            'pre-populated base, databases built by ZODB.config.databaseFromString, cases with '
-                           'a second database, with pool_size 1 or 2 (connections get discarded) and with a '
-                           'storage-level deleteObject; all other cases are also replayed on the Lean model'])
+                           'a second database, with pool_size 1 or 2 (connections get discarded), with a '
+                           'persistent class among the objects and with a storage-level deleteObject; all other cases are also replayed on the Lean model'])
 
 
 if __name__ == '__main__':
